@@ -141,6 +141,25 @@ let parse_bprog (toks : string list) =
      | _ -> failwith "bad case")
   | [] -> failwith "empty case"
 let show_sptr = function PTrue -> "T" | PFalse -> "F" | PPtr (i, c) -> (if c then "~" else "") ^ soi (int_of_nat i)
+(* canonical row numbering (same as the harness): rows renumbered in the order in which a depth-first
+   walk from the root completes them, pointers of a row in the row's own order; unreached rows keep
+   their relative order at the end.  [ptrs_of row] lists the row's pointers as Some index / None *)
+let canon_numbering (rows : 'r array) (ptrs_of : 'r -> int option list) (root : int option) : int array =
+  let n = Array.length rows in
+  let num = Array.make n (-1) in
+  let next = ref 0 in
+  let rec visit = function
+    | Some j when j < n && num.(j) = -1 ->
+      num.(j) <- max_int;
+      List.iter visit (ptrs_of rows.(j));
+      num.(j) <- !next; incr next
+    | _ -> () in
+  visit root;
+  Array.iteri (fun j x -> if x = -1 then (num.(j) <- !next; incr next)) num;
+  num
+let order_of_numbering num =
+  let idx = Array.init (Array.length num) (fun j -> j) in
+  Array.sort (fun a b -> compare num.(a) num.(b)) idx; idx
 let run_b toks =
   let (order, ops) = parse_bprog toks in
   match c17_bdd_pool order ops with
@@ -148,8 +167,12 @@ let run_b toks =
   | Some pool ->
     "B " ^ String.concat " | " (List.map (fun p ->
       let (rows, root) = bdd_serialize p in
-      String.concat " " (List.map (fun ((v, l), h) -> string_of_n v ^ "," ^ show_sptr l ^ "," ^ show_sptr h) rows)
-      ^ ";" ^ show_sptr root) pool)
+      let rows = Array.of_list rows in
+      let ix = function PPtr (i, _) -> Some (int_of_nat i) | _ -> None in
+      let num = canon_numbering rows (fun ((_, l), h) -> [ix l; ix h]) (ix root) in
+      let rn = function PPtr (i, c) when int_of_nat i < Array.length num -> PPtr (nat_of_int num.(int_of_nat i), c) | x -> x in
+      String.concat " " (List.map (fun j -> let ((v, l), h) = rows.(j) in string_of_n v ^ "," ^ show_sptr (rn l) ^ "," ^ show_sptr (rn h)) (Array.to_list (order_of_numbering num)))
+      ^ ";" ^ show_sptr (rn root)) pool)
 
 (* ---- X ---- *)
 let rec parse_svt = function
@@ -184,9 +207,13 @@ let run_x toks =
      | Ok pool ->
        "X " ^ String.concat " | " (List.map (fun p ->
          let (rows, root) = sdd_serialize p in
-         String.concat " " (List.map (fun r ->
-           String.concat "+" (List.map (fun (a, b) -> show_xptr a ^ ":" ^ show_xptr b) r)) rows)
-         ^ ";" ^ show_xptr root) pool)
+         let rows = Array.of_list rows in
+         let ix = function XPtr (i, _) -> Some (int_of_nat i) | _ -> None in
+         let num = canon_numbering rows (fun r -> List.concat_map (fun (a, b) -> [ix a; ix b]) r) (ix root) in
+         let rn = function XPtr (i, c) when int_of_nat i < Array.length num -> XPtr (nat_of_int num.(int_of_nat i), c) | x -> x in
+         String.concat " " (List.map (fun j ->
+           String.concat "+" (List.map (fun (a, b) -> show_xptr (rn a) ^ ":" ^ show_xptr (rn b)) rows.(j))) (Array.to_list (order_of_numbering num)))
+         ^ ";" ^ show_xptr (rn root)) pool)
      | OutOfFuel -> "X OUT_OF_FUEL"
      | Panic -> "X PANIC")
   | [] -> failwith "bad case"
